@@ -20,6 +20,8 @@ type halfPipe struct {
 	wclosed bool     // the writer closed: the reader sees EOF after draining
 	rclosed bool     // the reader closed: writes fail, buffered data is dropped
 	fin     string   // how the stream ends once drained and closed: "" / "eof", "idle", "err"
+	wlimit  int      // > 0: writes fail once wlimit-1 lines have been written (the reader is gone); 0 = never
+	wlines  int
 }
 
 // timeoutErr is what a read returns when its deadline passes (net.Error with Timeout() true).
@@ -47,6 +49,16 @@ func (p *halfPipe) write(b []byte) (int, error) {
 	defer p.mu.Unlock()
 	if p.wclosed || p.rclosed {
 		return 0, io.ErrClosedPipe
+	}
+	if p.wlimit > 0 {
+		if p.wlines >= p.wlimit-1 {
+			return 0, brokenErr{}
+		}
+		for _, c := range b {
+			if c == '\n' {
+				p.wlines++
+			}
+		}
 	}
 	p.buf = append(p.buf, b...)
 	p.cond.Broadcast()
@@ -131,6 +143,14 @@ func (c *BufConn) Close() error {
 
 // CloseWrite half-closes: the peer reads EOF after the data already written.
 func (c *BufConn) CloseWrite() error { c.w.closeWrite(); return nil }
+
+// FailPeerWritesAfter makes the peer's writes fail from its (k+1)-th line on (k lines get through, the
+// greeting included): the peer's reader has gone away.
+func (c *BufConn) FailPeerWritesAfter(k int) {
+	c.r.mu.Lock()
+	c.r.wlimit = k + 1
+	c.r.mu.Unlock()
+}
 
 // Finish ends the writer's side: the chunks in later arrive after a pause each (one timed-out read of the
 // peer per pause), then the stream ends by EOF ("eof"), by silence ("idle": every further read of the peer
